@@ -129,17 +129,17 @@ def build(ctx, h3):
     return out
 
 
-def exec_shard(ctx, exe, idx, cases):
-    cpath = write_ndjson(ctx.path("c14", "cases-%d.ndjson" % idx), cases)
-    tpath = ctx.path("c14", "trace-%d.ndjson" % idx)
-    racelog = ctx.path("c14", "race-%d" % idx)
+def exec_shard(ctx, exe, idx, cases, sub="exec-c14"):
+    cpath = write_ndjson(ctx.path("c14", "%s-cases-%d.ndjson" % (sub, idx)), cases)
+    tpath = ctx.path("c14", "%s-trace-%d.ndjson" % (sub, idx))
+    racelog = ctx.path("c14", "%s-race-%d" % (sub, idx))
     env = vlib.go_env()
     env.update(VERIF_SEED=str(ctx.seed), GORACE="log_path=%s exitcode=0 history_size=3" % racelog)
     try:
-        r = subprocess.run([exe, "exec-c14", "-in", cpath, "-out", tpath], env=env, capture_output=True, text=True,
+        r = subprocess.run([exe, sub, "-in", cpath, "-out", tpath], env=env, capture_output=True, text=True,
                            timeout=1500, cwd=ctx.scratch)
     except subprocess.TimeoutExpired:
-        raise MachineryError("exec-c14 shard %d timed out" % idx)
+        raise MachineryError("%s shard %d timed out" % (sub, idx))
     crash = None
     if r.returncode != 0:
         m = re.search(r"fatal error: (concurrent map[^\n]*|all goroutines are asleep[^\n]*)", r.stderr)
@@ -147,7 +147,7 @@ def exec_shard(ctx, exe, idx, cases):
         if (m or m2) and "internal/promapi" in r.stderr:
             crash = (m.group(1) if m else m2.group(1)).strip()
         else:
-            raise MachineryError("exec-c14 shard %d failed rc=%s:\n%s" % (idx, r.returncode, r.stderr[-6000:]))
+            raise MachineryError("%s shard %d failed rc=%s:\n%s" % (sub, idx, r.returncode, r.stderr[-6000:]))
     races = []
     for f in glob.glob(racelog + ".*"):
         txt = open(f).read()
@@ -200,6 +200,42 @@ def gen_cases(ctx, n_total, traced_share=0.85):
     return out, len(space)
 
 
+SCHED_CFG = """SPECIFICATION SSpec
+CONSTANTS
+  Callers = {%s}
+  Workers = {%s}
+  Questions <- MCQuestions
+  LockKeyOf <- MCLockKeyOf
+  ReqsOf <- MCReqsOf
+  Scenario = "instant"
+  QueueCap = %d
+  MaxFail = %d
+  MaxExpire = 0
+  SliceLock = FALSE
+INVARIANTS EmitBehaviour SchedInv
+CHECK_DEADLOCK FALSE
+"""
+
+
+def gen_behaviours(ctx, n):
+    """GEN for schedule replay: TLC simulates complete behaviours of the small instance (instant questions)."""
+    out, seen = [], set()
+    shapes = [(3, 2, 2, 1), (4, 2, 2, 1), (3, 1, 1, 1), (2, 2, 1, 2)]
+    for i, (k, c, cap, fail) in enumerate(shapes):
+        name = "c14_sched_%d.cfg" % i
+        r = ctx.tlc("PromClientSched", name, workers=1, simulate=max(1, n // len(shapes)), depth=300, seed=ctx.seed * 10 + i, timeout=1500,
+                    tag="gen-sched-%d" % i, heap="2g",
+                    files={name: SCHED_CFG % (",".join(str(x + 1) for x in range(k)), ",".join(str(x + 1) for x in range(c)), cap, fail)})
+        for v in prints(r, "CASE"):
+            key = json.dumps(v[0], sort_keys=True)
+            if key not in seen:
+                seen.add(key)
+                out.append(v[0])
+    for i, b in enumerate(out):
+        b["id"] = 100001 + i
+    return out
+
+
 def run(ctx, cases_override=None, repeat=1, confirm_pass=False):
     thorough = ctx.thorough
     ctx._spec_copy()
@@ -211,7 +247,7 @@ def run(ctx, cases_override=None, repeat=1, confirm_pass=False):
         log("[c14] NOTE: hook H3 missing in the repo; running without trace validation")
     exe = build(ctx, h3)
     if cases_override is None:
-        cases, space = gen_cases(ctx, 2400 if thorough else 320)
+        cases, space = gen_cases(ctx, 2400 if thorough else 280)
     else:
         cases, space = [], 0
         for rep in range(repeat):
@@ -230,6 +266,16 @@ def run(ctx, cases_override=None, repeat=1, confirm_pass=False):
     with concurrent.futures.ThreadPoolExecutor(max_workers=nshards) as ex:
         res = list(ex.map(lambda a: exec_shard(ctx, exe, a[0], a[1]), enumerate(shards)))
     log("[exec] exec-c14: %d cases in %d shards, %.1fs" % (len(cases), nshards, time.time() - t))
+    # ---- schedule replay of TLC behaviours through the gate of hook H3 (small instance, instant questions)
+    behaviours = []
+    if h3 and cases_override is None:
+        behaviours = gen_behaviours(ctx, 2400 if thorough else 240)
+        nb = 8
+        bsh = [behaviours[i::nb] for i in range(nb)]
+        t = time.time()
+        with concurrent.futures.ThreadPoolExecutor(max_workers=nb) as ex:
+            res += list(ex.map(lambda a: exec_shard(ctx, exe, a[0], a[1], "exec-c14r"), [(i, b) for i, b in enumerate(bsh) if b]))
+        log("[exec] exec-c14r: %d behaviours replayed, %.1fs" % (len(behaviours), time.time() - t))
     trace, race_reps, crashes = [], [], []
     for tpath, races, crash, _ in res:
         trace += read_ndjson(tpath)
@@ -257,7 +303,7 @@ def run(ctx, cases_override=None, repeat=1, confirm_pass=False):
             foreign, [r for r in race_reps if race_sig(r) is None][0][:3000]))
     slice_lock = any(r["ev"] == "H" and r["kind"] == "w" and r["h"] == "lock" for r in trace)
     # ---- JUDGE (shards of whole cases, judged in parallel)
-    nj = 1 if len(trace) < 4000 else (12 if thorough else 6)
+    nj = 1 if len(trace) < 4000 else (12 if thorough else 8)
     parts = [[] for _ in range(nj)]
     sizes = [0] * nj
     cur = []
@@ -328,6 +374,11 @@ def run(ctx, cases_override=None, repeat=1, confirm_pass=False):
                 keep.append(v)
             viols = keep
     lead_cases = sorted({cid for cid, _ in prints(j, "LEAD")})
+    ends = [r for r in trace if r["ev"] == "End" and r["id"] > 100000]
+    unreplayable = [r for r in ends if r.get("replay") != "ok"]
+    if unreplayable:
+        drift.append("%d of %d TLC behaviours could not be replayed on the real code, e.g. behaviour %d: %s" % (
+            len(unreplayable), len(ends), unreplayable[0]["id"], unreplayable[0].get("replay")))
     twin_cases = [c for c in cases if c["mix"] == "rangeTwin"]
     if cases_override is None and h3 and not slice_lock and leads and twin_cases and not any(v["detail"].get("shared") for v in viols):
         raise MachineryError("model-level counterexample (%s) not reproduced on the real code: spec bug" % leads)
@@ -346,7 +397,7 @@ def run(ctx, cases_override=None, repeat=1, confirm_pass=False):
         "mc_runs": [{"tag": r["tag"], "distinct": r["distinct"], "generated": r["generated"], "wall_s": r["wall_s"],
                      "violated": r["invariant_violated"]} for r in mc_runs],
         "model_level_leads": leads,
-        "traces_validated_against_impl": len(traced_cases),
+        "traces_validated_against_impl": len(traced_cases),   # perturbed runs + replayed behaviours
         "samples": [sample or {"case": cases[0] if cases else None}],
         "evaluations": len(cases),
         "distinct_nontrivial": len({(c["k"], c["c"], c["mix"], c["fault"], c["lat"], c["gc"]) for c in cases if c["id"] in contended}) if h3
@@ -357,12 +408,15 @@ def run(ctx, cases_override=None, repeat=1, confirm_pass=False):
         "exhaustive": False,
         "workload_space": space, "trace_records": len(trace), "hook_events": len(hev),
         "server_requests": sum(1 for r in trace if r["ev"] == "S" and r["h"] == "start"),
+        "behaviours_generated": len(behaviours), "behaviours_replayed": len(ends) - len(unreplayable), "unreplayable": len(unreplayable),
         "hook_h3": h3, "slice_lock_variant": slice_lock, "model_lead_cases": len(lead_cases),
         "race_reports": len(race_reps), "untraced_cases": len(cases) - len(traced_cases), "transient_unreproduced": transient,
     }
     return vlib.conclude(ctx, viols, "model_checking", cov, [
         "TLC model-checks NoTwin, Bounded, Once, Agree (+ termination under weak fairness) of the impl-shaped client for small constants, "
         "for the pinned processJob and for processJob serialised per cache key",
+        "TLC-simulated behaviours of the small instance are driven into the real goroutines through the hook's gate (the controller releases "
+        "exactly the next action's actor; the fake server holds each request until the behaviour decides its outcome); "
         "every hook event (H3, build tag verif) of every traced run is validated as a step of PromClient by TLC; "
         "the channel send/receive order is taken from hooks next to the channel operations",
         "verdict only from what the fake server logged (request intervals lie inside the client's) and what callers received; "
@@ -373,6 +427,8 @@ def run(ctx, cases_override=None, repeat=1, confirm_pass=False):
 
 def replay(ctx, path):
     v = json.load(open(path))
+    if not v.get("case"):          # race report / crash: not tied to one workload
+        return run(ctx)
     c = dict(v["case"])
     c["tracer"] = True
     return run(ctx, cases_override=[c], repeat=40)
